@@ -296,9 +296,7 @@ def validate(seed, tier):
             if kind in ('local2', 'local0') and L == 1:
                 continue
             inp2 = dict(inp, kind=kind, site=0)
-            f = concrete.CHECKS['operation'](inp2)
-            if f:
-                raise runner.HarnessError(f'concrete operation check fails on the unchanged tree ({kind}, L={L}): {f}')
+            runner.concrete_check('operation', inp2)
             n += 1
     return dict(concrete_inputs_checked=n)
 
